@@ -10,6 +10,7 @@ import (
 	"go/constant"
 	"go/token"
 	"go/types"
+	"os"
 	"reflect"
 	"sort"
 	"strconv"
@@ -580,6 +581,11 @@ func (tb *TB) load(x *ssa.UnOp) *Term {
 		if st := tb.dominatingFieldStore(x, a); st != nil {
 			return tb.Term(st.Val)
 		}
+		if g, ok := a.X.(*ssa.Global); ok && !tb.NoGlobalInit {
+			if init := tb.p.globalFieldInit(g, a.Field); init != nil {
+				return init
+			}
+		}
 		base := tb.baseTerm(a.X)
 		if base.Op == "Struct" {
 			// a struct built here (each field stored once): the field is the stored value
@@ -605,6 +611,19 @@ func (tb *TB) load(x *ssa.UnOp) *Term {
 		if !tb.NoGlobalInit && !isErrorType(a.Type().(*types.Pointer).Elem()) {
 			if init := tb.p.globalInit(a); init != nil {
 				return init
+			}
+			// a struct variable built field by field by the package initialiser
+			if st, isStruct := a.Type().(*types.Pointer).Elem().Underlying().(*types.Struct); isStruct {
+				t := mk("Struct", typeString(a.Type().(*types.Pointer).Elem()), x)
+				for i := 0; i < st.NumFields(); i++ {
+					if fv := tb.p.globalFieldInit(a, i); fv != nil {
+						t.Args = append(t.Args, mk("KV", st.Field(i).Name(), nil, fv))
+					}
+				}
+				if len(t.Args) > 0 {
+					sort.SliceStable(t.Args, func(i, j int) bool { return t.Args[i].S < t.Args[j].S })
+					return t
+				}
 			}
 		}
 		return mk("Global", a.Pkg.Pkg.Path()+"."+a.Name(), x)
@@ -1911,6 +1930,17 @@ func (p *Program) globalInit(g *ssa.Global) *Term {
 		}
 	}
 	if len(stores) != 1 || stores[0].Parent() != initFn {
+		if os.Getenv("AGECHECK_DEBUG_GLOBAL") != "" {
+			fmt.Fprintf(os.Stderr, "globalInit %s: %d stores; init=%v blocks=%d\n", g.Name(), len(stores), initFn != nil, func() int {
+				if initFn == nil {
+					return -1
+				}
+				return len(initFn.Blocks)
+			}())
+			for _, u := range p.globalUses(g) {
+				fmt.Fprintf(os.Stderr, "   use in %s: %T %s\n", u.Parent(), u, u)
+			}
+		}
 		return nil
 	}
 	// address taken elsewhere?
@@ -1922,12 +1952,63 @@ func (p *Program) globalInit(g *ssa.Global) *Term {
 				return nil
 			}
 		default:
+			if os.Getenv("AGECHECK_DEBUG_GLOBAL") != "" {
+				fmt.Fprintf(os.Stderr, "globalInit %s: use %T %s\n", g.Name(), r, r)
+			}
 			return nil
 		}
 	}
 	tb := p.TB(initFn)
 	tb.NoGlobalInit = false
 	return tb.Term(stores[0].Val)
+}
+
+// globalFieldInit: the value of field f of a package-level struct variable that is built once,
+// field by field, by the package initialiser (var enc = keyEncoding{hrp: "age", ..}) and never
+// written or exposed afterwards.
+func (p *Program) globalFieldInit(g *ssa.Global, f int) *Term {
+	if !strings.HasPrefix(g.Pkg.Pkg.Path(), modPath) {
+		return nil
+	}
+	initFn := g.Pkg.Func("init")
+	if initFn == nil {
+		return nil
+	}
+	var st *ssa.Store
+	for _, u := range p.globalUses(g) {
+		switch x := u.(type) {
+		case *ssa.UnOp, *ssa.DebugRef:
+		case *ssa.FieldAddr:
+			if x.X != ssa.Value(g) {
+				return nil
+			}
+			for _, r := range *x.Referrers() {
+				switch y := r.(type) {
+				case *ssa.UnOp, *ssa.DebugRef:
+				case *ssa.Store:
+					if y.Addr != ssa.Value(x) || y.Parent() != initFn {
+						return nil
+					}
+					if x.Field == f {
+						if st != nil {
+							return nil
+						}
+						st = y
+					}
+				default:
+					return nil // the field's address goes somewhere
+				}
+			}
+		default:
+			return nil
+		}
+	}
+	if st == nil {
+		return nil
+	}
+	tb := p.TB(initFn)
+	tb.NoGlobalInit = false
+	return tb.Term(st.Val)
 }
 
 // globalUses lists the module instructions that have g as an operand
